@@ -262,7 +262,7 @@ Proof.
       apply filter_In in Hin. apply H8. apply Hin. }
   rewrite Eph. clear ph1 Eph.
   (* phase 2: characterise (f2, out2) *)
-  set (ph2 := match q12 w with
+  set (ph2 := match (match qrel w with [] => q12 w | _ :: _ => [] end) with
               | p :: r => if quota_available (fl w) then
                             match acquire (fl w) with
                             | Ok (id, f') => let p' := with_id p id in
@@ -272,7 +272,7 @@ Proof.
                             | OutOfFuel => (Stuck 1, fl w, q12 w, out1, [])
                             end
                           else (Fine, fl w, q12 w, out1, [])
-              | [] => (Fine, fl w, [], out1, [])
+              | [] => (Fine, fl w, q12 w, out1, [])
               end).
   assert (forall oc f2 q12' out2 o2, ph2 = (oc, f2, q12', out2, o2) -> oc = Fine ->
             (quota f2 + Z.of_nat (length (inuse f2)) = rm)%Z /\ (0 <= quota f2)%Z /\ NoDup (inuse f2) /\ ~ In 0 (inuse f2) /\
@@ -280,7 +280,7 @@ Proof.
             (forall k p, In (k, p) out2 -> pid p = k)) as Hph2.
   { intros oc f2 q12' out2 o2 E Hoc. unfold ph2 in E.
     assert (forall x, In x (inuse (fl w)) <-> In x (keys out1 ++ rids qrel1)) as Hsame by (intros x; rewrite (H6 x), (Hiff1 x); reflexivity).
-    destruct (q12 w) as [|p r]; [inversion E; subst; repeat split; try assumption; apply Hsame|].
+    destruct (match qrel w with [] => q12 w | _ :: _ => [] end) as [|p r]; [inversion E; subst; repeat split; try assumption; apply Hsame|].
     destruct (quota_available (fl w)); [|inversion E; subst; repeat split; try assumption; apply Hsame].
     destruct (acquire (fl w)) as [[id f']| |] eqn:Eacq; [|inversion E; subst; discriminate|inversion E; subst; discriminate].
     destruct (acquire_ok _ _ _ Eacq) as [Hnin [Hnz [Hqnz ->]]].
@@ -312,13 +312,13 @@ Lemma close_inv rm now w : Inv rm w -> Inv rm (close now w).
 Proof.
   unfold Inv, close. destruct (alive w) eqn:Ea; cbn [negb]; [|rewrite Ea; auto].
   intros [H1 H2 H3 H4 H5 H6 H7 H8]. cbn [alive].
-  assert (rids (p_unack w ++ map enc_unack (qrel w) ++ map (fun x => enc_unack (snd x)) (pubout w)) = rids (qrel w) ++ keys (pubout w)) as Hr.
-  { rewrite H7. cbn [app]. unfold rids, keys. rewrite map_app, !map_map.
+  assert (rids (p_unack w ++ map (fun x => enc_unack (snd x)) (rev (pubout w)) ++ map enc_unack (qrel w)) = rev (keys (pubout w)) ++ rids (qrel w)) as Hr.
+  { rewrite H7. cbn [app]. unfold rids, keys. rewrite map_app, !map_map, <- map_rev.
     assert (forall p, pid (enc_unack p) = pid p) as Hp by (intros p; unfold enc_unack; destruct (is_pub p); reflexivity).
-    f_equal; [apply map_ext; exact Hp|]. apply map_ext_in. intros [k p] Hin. cbn [snd fst]. rewrite Hp. apply H8. exact Hin. }
+    f_equal; [|apply map_ext; exact Hp]. apply map_ext_in. intros [k p] Hin. cbn [snd fst]. rewrite Hp. apply H8. apply in_rev. exact Hin. }
   constructor; cbn [p_unack]; rewrite Hr.
-  - eapply Permutation_NoDup; [apply Permutation_app_comm|exact H5].
-  - intros Hc. apply H4. apply H6. unfold ids. apply in_app_or in Hc. apply in_or_app. destruct Hc; [right|left]; assumption.
+  - eapply Permutation_NoDup; [|exact H5]. unfold ids. apply Permutation_app_tail. apply Permutation_rev.
+  - intros Hc. apply H4. apply H6. unfold ids. apply in_app_or in Hc. apply in_or_app. destruct Hc as [Hc|Hc]; [left; apply in_rev; exact Hc|right; exact Hc].
 Qed.
 
 (* ------------------------------------------------------------------ *)
@@ -462,38 +462,15 @@ Proof.
               ** destruct (expired now p0); [destruct Hin|]. destruct Hin as [<-|[]]. left. left. reflexivity.
       * destruct (q0 w) as [|p0 r0] eqn:E0; inversion Hp; subst; cbn [app] in Hin; [destruct Hin|].
         destruct (expired now p0); [destruct Hin|]. destruct Hin as [<-|[]]. left. left. reflexivity.
-  - (* a retransmission / PUBREL at the head *)
+  - (* a retransmission / PUBREL at the head: nothing new is popped behind it *)
     assert (forall f2 q0' q12' out2, In (pid pr) (keys out2) ->
               (forall x, In x (inuse (fl (wr_set w f2 q0' q12' rr out2))) <-> In x (ids (wr_set w f2 q0' q12' rr out2))) ->
               In (pid pr) (inuse (fl (wr_set w f2 q0' q12' rr out2)))) as Hhead.
     { intros f2 q0' q12' out2 Hk Hi. apply Hi. unfold ids. cbn [wr_set pubout]. apply in_or_app. left. exact Hk. }
-    destruct (q12 w) as [|p2 r2] eqn:E12.
-    + destruct (q0 w) as [|p0 r0] eqn:E0; inversion Hp; subst; cbn [app] in Hin.
-      * destruct Hin as [<-|[]]. right. apply Hhead; [rewrite store_keys; left; reflexivity|exact G6].
-      * destruct Hin as [<-|Hin]; [right; apply Hhead; [rewrite store_keys; left; reflexivity|exact G6]|].
-        destruct (expired now p0); [destruct Hin|]. destruct Hin as [<-|[]]. left. left. reflexivity.
-    + destruct (quota_available (fl w)).
-      * destruct (acquire (fl w)) as [[id f']| |] eqn:Ea2; try (destruct (q0 w); inversion Hp; fail).
-        destruct (expired now (with_id p2 id)) eqn:Ex.
-        -- destruct (q0 w) as [|p0 r0] eqn:E0; inversion Hp; subst; cbn [app] in Hin.
-           ++ destruct Hin as [<-|[]]. right. apply Hhead; [rewrite store_keys; left; reflexivity|exact G6].
-           ++ destruct Hin as [<-|Hin]; [right; apply Hhead; [rewrite store_keys; left; reflexivity|exact G6]|].
-              destruct (expired now p0); [destruct Hin|]. destruct Hin as [<-|[]]. left. left. reflexivity.
-        -- assert (In (pid pr) (keys (store id (with_id p2 id) (store (pid pr) pr (pubout w))))) as Hk2.
-           { rewrite store_keys. destruct (N.eq_dec (pid pr) id) as [->|Hne]; [left; reflexivity|].
-             right. apply remove_id_In. split; [exact Hne|]. rewrite store_keys. left. reflexivity. }
-           destruct (q0 w) as [|p0 r0] eqn:E0; inversion Hp; subst; cbn [app] in Hin.
-           ++ destruct Hin as [<-|[<-|[]]]; right.
-              ** apply Hhead; [exact Hk2|exact G6].
-              ** apply G6. unfold ids. cbn [wr_set pubout qrel]. apply in_or_app. left. rewrite store_keys. left. reflexivity.
-           ++ destruct Hin as [<-|[<-|Hin]].
-              ** right. apply Hhead; [exact Hk2|exact G6].
-              ** right. apply G6. unfold ids. cbn [wr_set pubout qrel]. apply in_or_app. left. rewrite store_keys. left. reflexivity.
-              ** destruct (expired now p0); [destruct Hin|]. destruct Hin as [<-|[]]. left. left. reflexivity.
-      * destruct (q0 w) as [|p0 r0] eqn:E0; inversion Hp; subst; cbn [app] in Hin.
-        -- destruct Hin as [<-|[]]. right. apply Hhead; [rewrite store_keys; left; reflexivity|exact G6].
-        -- destruct Hin as [<-|Hin]; [right; apply Hhead; [rewrite store_keys; left; reflexivity|exact G6]|].
-           destruct (expired now p0); [destruct Hin|]. destruct Hin as [<-|[]]. left. left. reflexivity.
+    destruct (q0 w) as [|p0 r0] eqn:E0; inversion Hp; subst; cbn [app] in Hin.
+    + destruct Hin as [<-|[]]. right. apply Hhead; [rewrite store_keys; left; reflexivity|exact G6].
+    + destruct Hin as [<-|Hin]; [right; apply Hhead; [rewrite store_keys; left; reflexivity|exact G6]|].
+      destruct (expired now p0); [destruct Hin|]. destruct Hin as [<-|[]]. left. left. reflexivity.
 Qed.
 
 (* ------------------------------------------------------------------ *)
@@ -505,19 +482,14 @@ Lemma pop_fine rm now w : Inv rm w -> alive w = true -> (rm <= 65535)%Z ->
 Proof.
   unfold Inv. intros Hinv Ea Hrm. rewrite Ea in Hinv. destruct Hinv as [H1 H2 H3 H4 _ _ _ _].
   unfold pop_round. rewrite Ea. cbn [negb].
-  destruct (qrel w) as [|pr rr]; destruct (q12 w) as [|p2 r2]; try (destruct (q0 w); eexists; eexists; reflexivity).
-  - destruct (quota_available (fl w)) eqn:Eq; [|destruct (q0 w); eexists; eexists; reflexivity].
-    unfold quota_available in Eq. apply Z.ltb_lt in Eq.
-    unfold acquire. destruct (quota (fl w) =? 0)%Z eqn:Ez; [apply Z.eqb_eq in Ez; lia|].
-    destruct (acquire_loop acquire_fuel (cur (fl w)) (inuse (fl w))) as [id|] eqn:El.
-    + destruct (expired now (with_id p2 id)); destruct (q0 w); eexists; eexists; reflexivity.
-    + exfalso. eapply acquire_loop_finds; [exact H3| |exact El]. lia.
-  - destruct (quota_available (fl w)) eqn:Eq; [|destruct (q0 w); eexists; eexists; reflexivity].
-    unfold quota_available in Eq. apply Z.ltb_lt in Eq.
-    unfold acquire. destruct (quota (fl w) =? 0)%Z eqn:Ez; [apply Z.eqb_eq in Ez; lia|].
-    destruct (acquire_loop acquire_fuel (cur (fl w)) (inuse (fl w))) as [id|] eqn:El.
-    + destruct (expired now (with_id p2 id)); destruct (q0 w); eexists; eexists; reflexivity.
-    + exfalso. eapply acquire_loop_finds; [exact H3| |exact El]. lia.
+  destruct (qrel w) as [|pr rr]; [|destruct (q0 w); eexists; eexists; reflexivity].
+  destruct (q12 w) as [|p2 r2]; [destruct (q0 w); eexists; eexists; reflexivity|].
+  destruct (quota_available (fl w)) eqn:Eq; [|destruct (q0 w); eexists; eexists; reflexivity].
+  unfold quota_available in Eq. apply Z.ltb_lt in Eq.
+  unfold acquire. destruct (quota (fl w) =? 0)%Z eqn:Ez; [apply Z.eqb_eq in Ez; lia|].
+  destruct (acquire_loop acquire_fuel (cur (fl w)) (inuse (fl w))) as [id|] eqn:El.
+  - destruct (expired now (with_id p2 id)); destruct (q0 w); eexists; eexists; reflexivity.
+  - exfalso. eapply acquire_loop_finds; [exact H3| |exact El]. lia.
 Qed.
 
 Definition opens_ok (es : list ev) : Prop :=
@@ -575,16 +547,22 @@ Qed.
    its identifier, DUP set; and the head of that queue is the first thing a writer round emits *)
 Lemma redelivery_queued now r w :
   alive w = true -> p_unack w = [] ->
-  qrel (open r (close now w)) = map enc_unack (qrel w) ++ map (fun x => enc_unack (snd x)) (pubout w).
+  qrel (open r (close now w)) = map (fun x => enc_unack (snd x)) (rev (pubout w)) ++ map enc_unack (qrel w).
 Proof. intros Ea Hp. unfold open, close. rewrite Ea. cbn [negb alive p_unack qrel]. rewrite Hp. reflexivity. Qed.
 
 Lemma retransmit_first now w p r w' o oc :
   alive w = true -> qrel w = p :: r -> pop_round now w = (oc, w', o) -> exists o', o = p :: o'.
 Proof.
   intros Ea Hq Hp. unfold pop_round in Hp. rewrite Ea, Hq in Hp. cbn [negb] in Hp.
-  destruct (q12 w) as [|p2 r2].
-  - destruct (q0 w); inversion Hp; subst; eexists; reflexivity.
-  - destruct (quota_available (fl w)); [|destruct (q0 w); inversion Hp; subst; eexists; reflexivity].
-    destruct (acquire (fl w)) as [[id f']| |]; [destruct (expired now (with_id p2 id))| |];
-      destruct (q0 w); inversion Hp; subst; eexists; reflexivity.
+  destruct (q0 w); inversion Hp; subst; eexists; reflexivity.
+Qed.
+
+(* ... and while anything waits there, nothing that has never been transmitted leaves its queue: what was sent
+   before (in an earlier connection) goes out again, in the order it was sent, before anything new *)
+Lemma retransmit_before_new now w p r w' o oc :
+  alive w = true -> qrel w = p :: r -> pop_round now w = (oc, w', o) ->
+  q12 w' = q12 w /\ qrel w' = r /\ oc = Fine.
+Proof.
+  intros Ea Hq Hp. unfold pop_round in Hp. rewrite Ea, Hq in Hp. cbn [negb] in Hp.
+  destruct (q0 w); inversion Hp; subst; cbn [wr_set q12 qrel]; auto.
 Qed.
